@@ -629,6 +629,36 @@ func c15Recovery(c *Check) {
 		}
 		c.Result(okU, "C15.U", "unstable log drains", fnName(needResp), p.Pos(needResp.Pos()), "hasNextOrInProgressUnstableEnts() => a MsgStorageAppendResp is attached (not only when this Ready carries entries)", "")
 	}
+	// --- C15.Y: HasReady reports every kind of pending work (otherwise the application never asks for the Ready that would make progress)
+	if hasReady := p.Method("raft", "RawNode", "HasReady"); hasReady != nil {
+		hfi := p.Info(hasReady)
+		rn := hfi.Sym(hasReady.Params[0])
+		rs := FieldOf(rn, p.Field("raft", "RawNode", "raft"))
+		rl := FieldOf(rs, p.Field("raft", "raft", "raftLog"))
+		lenOf := func(s *Sym) *Sym { return &Sym{K: KBuiltin, Name: "len", Args: []*Sym{s}} }
+		code := p.ReturnFormula(hasReady)
+		if code == nil {
+			c.Undecided("C15.Y", "RawNode.HasReady", fnName(hasReady), p.Pos(hasReady.Pos()), "covers all pending work", "function too complex to summarise")
+		} else {
+			work := map[string]*BF{
+				"queued messages":               bfCmp(lenOf(FieldOf(rs, p.Field("raft", "raft", "msgs"))), ">", constSym(0)),
+				"queued after-append messages":  bfCmp(lenOf(FieldOf(rs, p.Field("raft", "raft", "msgsAfterAppend"))), ">", constSym(0)),
+				"read states":                   bfCmp(lenOf(FieldOf(rs, p.Field("raft", "raft", "readStates"))), "!=", constSym(0)),
+				"unstable entries":              bfSym(CallSym(p.Method("raft", "raftLog", "hasNextUnstableEnts"), rl)),
+				"unstable snapshot":             bfSym(CallSym(p.Method("raft", "raftLog", "hasNextUnstableSnapshot"), rl)),
+				"committed entries to hand out": bfSym(CallSym(p.Method("raft", "raftLog", "hasNextCommittedEnts"), rl, CallSym(p.Method("raft", "RawNode", "applyUnstableEntries"), rn))),
+			}
+			var names []string
+			for n := range work {
+				names = append(names, n)
+			}
+			sort.Strings(names)
+			for _, n := range names {
+				ok, why := bfImplies(work[n], code)
+				c.Result(ok, "C15.Y", "HasReady reports "+n, fnName(hasReady), p.Pos(hasReady.Pos()), "this kind of pending work makes HasReady true", why)
+			}
+		}
+	}
 	// --- C15.K: ticks drive elections and heartbeats
 	tickElection := p.Method("raft", "raft", "tickElection")
 	if tickElection != nil && step != nil {
